@@ -80,6 +80,10 @@ func fnExec(ctx *cmdContext, args map[string]any) (output respValue, err error) 
 	ctx.cs.setMultiInProgress(true)
 	defer ctx.cs.setMultiInProgress(false)
 
+	// queued commands that touch several data stores need to know which one is already owned
+	ctx.cs.execDsc = ctx.dsc
+	defer func() { ctx.cs.execDsc = nil }()
+
 	// check the watches; if anything has changed, return null
 	if isAbortedExecUnlocked(ctx.cs) {
 		// the transaction is over: back to normal mode, nothing watched
